@@ -360,6 +360,10 @@ def run(R):
                      "recursive tree type each turn (`expression = And(Box::new(expression), right)`) charges the depth budget in that turn, before the "
                      "wrap, and leaves the parse when the charge fails. The tree types are walked recursively by every consumer (lowering, the "
                      "optimizer, Drop), so an operator chain of a few thousand links otherwise overflows the stack after a successful parse")
+    R.rule("C16-R9", "a charge that fails is refunded: the depth counter lives as long as the thread. A function that charges it and hands back a guard "
+                     "object (whose Drop releases the charge) has built that guard before it charges - so the early return of a failed charge drops "
+                     "the guard and refunds - or the budget function itself takes the charge back before it reports failure. Otherwise every rejected "
+                     "over-deep input permanently shrinks the budget of that thread, and after enough of them every query is rejected")
     R.rule("C16-R5", "nothing parsed is discarded: whatever a sub-parser of parser.rs returns as its payload flows into the value the "
                      "calling parser returns (or decides a branch); a payload may be ignored only by a recogniser that returns the "
                      "consumed source slice computed from the remainder (`input[..input.len() - rest.len()]`). A modifier or pattern "
@@ -380,6 +384,7 @@ def run(R):
     r6(R)
     r7(R, ents)
     r8(R, ents)
+    r9(R)
 
 
 def certify(R, prog, bodies, rule):
@@ -1117,3 +1122,52 @@ def r8(R, ents):
                  detail=None if c is not None else "each turn wraps `%s` into a new node and nothing bounds the number of turns: a chain of operators as long "
                  "as the input builds a tree that deep, and the recursive consumers (optimizer, Drop) overflow the stack" % nm)
     R.floor("C16-R8", "loops of the parser that deepen a recursive tree", n, 4)
+
+
+
+def r9(R):
+    from lib import depth as D
+    prog = R.prog
+    inparser = lambda x: x.file.endswith("parser.rs")
+    budgets = D.budget_fns(prog, inparser)
+    charging = D.charging_fns(prog, inparser)
+    gtypes = D._guard_types(prog)
+    n = 0
+    for k in sorted(charging - budgets):
+        w = prog.bodies[k]
+        import re as _re
+        m = _re.match(r"^(?:core::result::)?Result<([\w:]+)", w.local_ty(0))
+        g = m.group(1) if m else D._base(w.local_ty(0))
+        if g not in gtypes:
+            continue
+        n += 1
+        calls = [c for c in w.calls() if c.key in budgets or c.key in charging]
+        builds = [bb for bb, i, pl, rv, st in w.assigns() if rv["rv"] == "aggregate" and rv.get("ak") == "adt" and (rv.get("adt") or "") == g]
+        ok = bool(calls) and bool(builds) and all(any(w.dominates(bb, c.bb) or bb == c.bb for bb in builds) for c in calls)
+        if not ok:
+            # does the budget function refund on its failure path?
+            refunds = False
+            for c in calls:
+                bfn = prog.bodies.get(c.key)
+                if bfn is None:
+                    continue
+                errs = [bb for bb, i, pl, rv, st in bfn.assigns() if rv["rv"] == "aggregate" and rv.get("variant") in ("Err", "Failure")]
+                wblocks = {cc.bb for cc in bfn.calls() if cc.name() in ("set", "fetch_sub", "replace", "update")}
+                from lib import pipeline as P
+                for cc in bfn.calls():
+                    for a in cc.args:
+                        key2, inner = P._closure_calls(prog, bfn, a)
+                        if key2 and any(ic.name() in ("set", "fetch_sub", "replace", "update") for x2, ic in inner):
+                            wblocks.add(cc.bb)
+                exits = list(bfn.exits())
+                for wb in wblocks:
+                    only_some = not all(bfn.dominates(wb, e2) or wb == e2 for e2 in exits)
+                    reaches_err = any(e in bfn.reach_from([wb]) or e == wb for e in errs)
+                    if only_some and reaches_err:
+                        refunds = True
+            ok = refunds
+        R.ob("C16-R9", "refund:" + w.name, "%s refunds a charge that fails (the guard exists before the charge, or the budget function takes it back)" % w.pretty.split("::")[-2:][-1] if False else
+             "%s refunds a charge that fails (the guard exists before the charge, or the budget function takes it back)" % w.name, ok, where=w.where(),
+             detail=None if ok else "the counter is advanced, the limit test fails and the function returns before any guard exists: nothing ever subtracts "
+             "this charge, and the thread-local counter never returns to zero")
+    R.floor("C16-R9", "functions that charge the depth counter and return a guard", n, 1)
